@@ -85,3 +85,29 @@ claim('C16', 'other', 'contract-based deductive verification of the bit-level pr
       'Proved for all byte contents and positions: BitWriter.write appends exactly the given bit and keeps the writer invariant; BitReader.read returns the bit at the position, advances by one and raises BitIOError exactly at the end; '
       'write_number accepts exactly 0 <= n < 2^k (k<=9) and emits the little-endian bits; gate-type codes are injective/inverse and _get_arity is the table the format defines. Round trips of numbers, dictionaries and circuits are bounded-only.',
       T_ASSUME + 'background lemma on disjoint-bit OR (side condition proved).', 'DESIGN.md §6 C16')
+
+for _k in ('C10', 'C12'):
+    NA.pop(_k, None)
+claim('C10', 'other', 'contract-based deductive verification of the five composition wrappers against the callee contract of connect_circuit (argument forwarding); bounded stand-in for connect_circuit itself',
+      'Proved for arbitrary circuits and arbitrary (possibly empty) connector sequences: connect_left, connect_right, connect_inputs, extend_circuit (all eight given/defaulted combinations, both directions) and add_circuit call connect_circuit exactly once with the documented arguments '
+      '(explicit empty lists are passed through; None defaults to the interface lists) and return its result. connect_circuit itself is bounded-only (enumerated pairs against the composition oracle); one known finding is listed for it.',
+      T_ASSUME, 'DESIGN.md §6 C10')
+claim('C12', 'other', 'contract-based deductive verification of the canonical-index helpers (digit-string and power-of-two models); bounded stand-in (exhaustive small functions) for the protocol queries',
+      'Proved for all values: input_to_canonical_index is the big-endian value of 0..5 input bits; get_bit_value(v, i, n) is bit n-1-i of v. The twelve protocol queries of the three representations, model completion and integer wrappers are bounded-only '
+      '(all functions with n<=2, m<=2 quick; n<=3, m<=2 thorough, exhaustive).',
+      T_ASSUME + 'background lemmas on shifts by powers of two.', 'DESIGN.md §6 C12')
+
+for _k in ('C11', 'C17'):
+    NA.pop(_k, None)
+claim('C11', 'other', 'contract-based deductive verification in the string theories of z3/cvc5: line classification and name/label extraction of the bench parser for every identifier label; bounded stand-in for whole texts',
+      'Proved for EVERY identifier label (incl. labels beginning with input/output/vdd/buff): printed gate lines are classified as gate definitions, INPUT(..)/OUTPUT(..) lines as declarations, comments and blanks ignored; _parse_name_gate returns exactly (label, body) for several separator layouts; '
+      'the declaration handlers recover exactly the label. Operand splitting, operator dispatch, and whole-text round trips / free layouts are bounded-only.',
+      T_ASSUME + 'axioms of str.strip/find/slicing/upper as encoded.', 'DESIGN.md §6 C11')
+claim('C17', 'other', 'contract-based deductive verification of the normalise/denormalise pair (real code incl. list.sort(key) symbolically executed on an interpreted Circuit, all comparison outcomes); bounded/exhaustive stand-in for the stored data and lookups',
+      'Proved for every truth table of the shapes 1x2, 1x4, 2x2, 2x4, 3x2 (3x4 in thorough), all entry values: if a circuit computes the normalised rows then after denormalize() its outputs compute the original rows in the original order; normalised rows start with 0. '
+      'Database contents (thorough: all 699,448 entries, exhaustive) and the lookup functions incl. don\'t-cares are bounded-only.',
+      T_ASSUME + 'model of list.sort as a stable sort.', 'DESIGN.md §6 C17')
+NA['C04'] = ('no contract within reach can decide it: minimize_subcircuits needs the absent C++ cut enumerator, a SAT solver in a forked process pool, uuid, deepcopy and hash-order dependent set iteration; its gate-interpreting component '
+             '_PatternOperations.eval_pattern is proved under C01 (c01_extra), circuit_search clause families under C06, replace_subcircuit is bounded under C19. A bounded driver with stand-in shims exists (vlib/bounded/C04.py) but is not registered: it would be a different technique resting on a guessed cut enumerator.')
+NA['C20'] = ('no deductive obligation built: Kahn-style top_sort (multiset in-degree bookkeeping over users lists, generator) and the three-state work-list traversal with hooks need inductive invariants that were not completed; '
+             'the top_sort contract is ASSUMED by the C01 proof of evaluate_full_circuit and exercised by the unregistered bounded driver vlib/bounded/C20.py (all multigraph DAGs up to 3 nodes + random, both directions, all hook combinations).')
